@@ -355,8 +355,25 @@ fn i256(x: u128) -> Int256 {
     Int256::from(x)
 }
 
+thread_local! {
+    static IN_CONTRACT: std::cell::Cell<bool> = std::cell::Cell::new(false);
+}
+
+/// Traps inside the contract are silent (they are counted as refusals); a panic in the
+/// harness itself is printed.
 pub fn silence_panics() {
-    std::panic::set_hook(Box::new(|_| {}));
+    std::panic::set_hook(Box::new(|info| {
+        if !IN_CONTRACT.with(|c| c.get()) {
+            eprintln!("harness panic: {}", info);
+        }
+    }));
+}
+
+fn guarded<T>(f: impl FnOnce() -> T) -> std::thread::Result<T> {
+    IN_CONTRACT.with(|c| c.set(true));
+    let r = catch_unwind(AssertUnwindSafe(f));
+    IN_CONTRACT.with(|c| c.set(false));
+    r
 }
 
 fn panic_text(p: Box<dyn std::any::Any + Send>) -> String {
@@ -604,7 +621,7 @@ impl World {
         let api = MockApi::default();
         let tables = self.tables.clone();
         let store = &mut self.store;
-        let result = catch_unwind(AssertUnwindSafe(|| {
+        let result = guarded(|| {
             let msg: ats_smart_contract::msg::ExecuteMsg =
                 from_slice(msg_json).map_err(|e| format!("parse: {}", e))?;
             let q = TableQuerier { t: &tables };
@@ -615,7 +632,7 @@ impl World {
             };
             ats_smart_contract::contract::execute(deps, env, info, msg)
                 .map_err(|e| format!("{:?}", e))
-        }));
+        });
         self.finish(snapshot, moves, result)
     }
 
@@ -629,7 +646,7 @@ impl World {
         let api = MockApi::default();
         let tables = self.tables.clone();
         let store = &mut self.store;
-        let result = catch_unwind(AssertUnwindSafe(|| {
+        let result = guarded(|| {
             let msg: ats_smart_contract::msg::InstantiateMsg =
                 from_slice(msg_json).map_err(|e| format!("parse: {}", e))?;
             let q = TableQuerier { t: &tables };
@@ -640,7 +657,7 @@ impl World {
             };
             ats_smart_contract::contract::instantiate(deps, env, info, msg)
                 .map_err(|e| format!("{:?}", e))
-        }));
+        });
         self.finish(snapshot, vec![], result)
     }
 
@@ -650,7 +667,7 @@ impl World {
         let api = MockApi::default();
         let tables = self.tables.clone();
         let store = &mut self.store;
-        let result = catch_unwind(AssertUnwindSafe(|| {
+        let result = guarded(|| {
             let msg: ats_smart_contract::msg::MigrateMsg =
                 from_slice(msg_json).map_err(|e| format!("parse: {}", e))?;
             let q = TableQuerier { t: &tables };
@@ -660,7 +677,7 @@ impl World {
                 querier: QuerierWrapper::new(&q),
             };
             ats_smart_contract::contract::migrate(deps, env, msg).map_err(|e| format!("{:?}", e))
-        }));
+        });
         self.finish(snapshot, vec![], result)
     }
 
@@ -672,7 +689,7 @@ impl World {
         let api = MockApi::default();
         let tables = self.tables.clone();
         let store = &self.store;
-        let r = catch_unwind(AssertUnwindSafe(|| {
+        let r = guarded(|| {
             let msg: ats_smart_contract::msg::QueryMsg =
                 from_slice(msg_json).map_err(|e| format!("parse: {}", e))?;
             let q = TableQuerier { t: &tables };
@@ -684,7 +701,7 @@ impl World {
             ats_smart_contract::contract::query(deps, env, msg)
                 .map(|b| b.0)
                 .map_err(|e| format!("{:?}", e))
-        }));
+        });
         match r {
             Ok(x) => x,
             Err(p) => Err(format!("panic: {}", panic_text(p))),
